@@ -1,1 +1,1019 @@
-fn main() {}
+//! C29 — Markdown docs have valid links and verbatim documentation text.
+//!
+//! Space: a fixed world template with 30 documentation slots (world, imported / exported interface,
+//! every kind of type, fields, cases, flags, resource members, functions, world-level items), types
+//! referenced from other types and from signatures, names shared between the two interfaces.
+//! A case puts one fragment (quick) or two fragments (thorough) from the fragment alphabet into
+//! one / two slots, every other slot carries a plain unique sentence; x 2 layouts (fragment alone /
+//! between two marker lines) x 2 comment styles (`///`, `/** */`) x 2 world shapes.
+//! The real generator runs in both output modes (`w.md`+`w.html`, `--html-in-md`).
+//!
+//! Oracle (from the statement): (1) no `<a` while an `<a>` is open; (2) every `href="#x"` has an
+//! `id="x"`/`name="x"` in the same document; (3a) in the markdown output every doc line appears as a
+//! line of its own, unchanged apart from surrounding whitespace (and the `<p>` the generator puts in
+//! front of member docs), the lines of one doc in order; (3b) in the HTML output the text content
+//! (tags stripped, entities decoded, white space collapsed) contains every doc's text, where for
+//! a fragment with markdown meaning both its rendered and its raw text are accepted.
+
+use e7_text::*;
+use serde_json::{json, Value};
+use std::collections::{BTreeMap, BTreeSet};
+use wit_bindgen_core::wit_parser::{Docs, Resolve, TypeDefKind, WorldId, WorldItem};
+
+// ---------------------------------------------------------------------------------------------
+// Fragment alphabet
+// ---------------------------------------------------------------------------------------------
+
+struct Fragment {
+    id: &'static str,
+    /// doc lines; `~` is replaced by the slot number so that texts are unique per slot
+    lines: &'static [&'static str],
+    /// what the HTML *text content* may show for each non-blank line: the markdown-rendered text or the raw
+    /// text (member docs follow a literal `<p>` and are therefore raw HTML up to the next blank line)
+    html_texts: &'static [&'static [&'static str]],
+    /// may be used inside `/** */` (no `/*`, no `*/`)
+    block_ok: bool,
+}
+
+const FRAGMENTS: &[Fragment] = &[
+    Fragment { id: "open-brace", lines: &["{"], html_texts: &[&["{"]], block_ok: true },
+    Fragment { id: "close-brace", lines: &["}"], html_texts: &[&["}"]], block_ok: true },
+    Fragment { id: "close-brace-at-line-start", lines: &["} tail~"], html_texts: &[&["} tail~"]], block_ok: true },
+    Fragment { id: "line-ends-with-open-brace", lines: &["open~ {", "inner~", "}"], html_texts: &[&["open~ {"], &["inner~"], &["}"]], block_ok: true },
+    Fragment { id: "slashes", lines: &["// x~"], html_texts: &[&["// x~"]], block_ok: true },
+    Fragment { id: "slashes-brace", lines: &["// } x~ {"], html_texts: &[&["// } x~ {"]], block_ok: true },
+    Fragment { id: "code-span", lines: &["`code~`"], html_texts: &[&["code~", "`code~`"]], block_ok: true },
+    Fragment { id: "html-tag", lines: &["<b>bold~</b>"], html_texts: &[&["bold~"]], block_ok: true },
+    Fragment { id: "bare-html-tag", lines: &["<b>"], html_texts: &[&[""]], block_ok: true },
+    Fragment { id: "ampersand", lines: &["a~ & b~"], html_texts: &[&["a~ & b~"]], block_ok: true },
+    Fragment { id: "less-than", lines: &["a~ < b~"], html_texts: &[&["a~ < b~"]], block_ok: true },
+    Fragment { id: "md-link", lines: &["[txt~](u)"], html_texts: &[&["txt~", "[txt~](u)"]], block_ok: true },
+    Fragment { id: "md-heading", lines: &["# hd~"], html_texts: &[&["hd~", "# hd~"]], block_ok: true },
+    Fragment { id: "blank-line-inside", lines: &["top~", "", "bottom~"], html_texts: &[&["top~"], &["bottom~"]], block_ok: true },
+    Fragment { id: "leading-spaces", lines: &["    indented~"], html_texts: &[&["indented~"]], block_ok: true },
+    Fragment { id: "code-naming-a-type", lines: &["see `rec-type` x~"], html_texts: &[&["see rec-type x~", "see `rec-type` x~"]], block_ok: true },
+    Fragment { id: "link-around-code-naming-a-type", lines: &["[`rec-type`](u) y~"], html_texts: &[&["rec-type y~", "[`rec-type`](u) y~"]], block_ok: true },
+    Fragment { id: "code-naming-a-field", lines: &["`rec-type::fld-one` z~"], html_texts: &[&["rec-type::fld-one z~", "`rec-type::fld-one` z~"]], block_ok: true },
+    Fragment { id: "block-comment-markers", lines: &["/* c~ * /"], html_texts: &[&["/* c~ * /"]], block_ok: false },
+];
+
+// ---------------------------------------------------------------------------------------------
+// World templates; `@@name@@` marks a documentation slot
+// ---------------------------------------------------------------------------------------------
+
+const IFACE_IMP: &str = r#"@@iface-import@@
+interface imp {
+  @@record@@
+  record rec-type {
+    @@record-field@@
+    fld-one: u32,
+    @@record-field-2@@
+    fld-two: shared,
+  }
+  @@alias@@
+  type shared = u32;
+  @@variant@@
+  variant var-type {
+    @@variant-case@@
+    case-one(rec-type),
+    @@variant-case-2@@
+    case-two,
+  }
+  @@enum@@
+  enum enum-type {
+    @@enum-case@@
+    en-one,
+    en-two,
+  }
+  @@flags@@
+  flags flags-type {
+    @@flag@@
+    fl-one,
+    fl-two,
+  }
+  @@option-type@@
+  type opt-type = option<rec-type>;
+  @@result-type@@
+  type res-type = result<var-type, enum-type>;
+  @@tuple-type@@
+  type tup-type = tuple<rec-type, u32>;
+  @@list-type@@
+  type list-type = list<rec-type>;
+  @@resource@@
+  resource res-handle {
+    @@constructor@@
+    constructor(a: rec-type);
+    @@method@@
+    meth: func(a: borrow<res-handle>, b: tup-type) -> var-type;
+    @@static@@
+    make: static func() -> res-handle;
+  }
+  @@func@@
+  do-it: func(a: rec-type, b: opt-type, c: list<flags-type>, d: list-type) -> res-type;
+}
+"#;
+
+const IFACE_EXP: &str = r#"@@iface-export@@
+interface exp {
+  use imp.{rec-type};
+  @@export-alias@@
+  type shared = string;
+  @@export-record@@
+  record other-rec {
+    @@export-record-field@@
+    a: rec-type,
+    b: shared,
+  }
+  @@export-func@@
+  do-it: func(a: other-rec) -> tuple<rec-type, shared>;
+}
+"#;
+
+const WORLD_A: &str = r#"@@world@@
+world w {
+  import imp;
+  export exp;
+  use imp.{rec-type, var-type};
+  @@world-type@@
+  record world-rec {
+    @@world-type-field@@
+    x: rec-type,
+  }
+  @@world-func-import@@
+  import wfunc: func(a: world-rec) -> var-type;
+  @@world-func-export@@
+  export wexp: func(a: rec-type) -> world-rec;
+}
+"#;
+
+/// shape B: the same interface imported and exported, an inline exported interface
+const WORLD_B: &str = r#"@@world@@
+world w {
+  import imp;
+  export imp;
+  export exp;
+  @@world-func-import@@
+  import wfunc: func(a: u32) -> u32;
+}
+"#;
+
+fn template(shape: usize) -> String {
+    let world = if shape == 0 { WORLD_A } else { WORLD_B };
+    format!("package a:b;\n\n{IFACE_IMP}\n{IFACE_EXP}\n{world}")
+}
+
+fn slots(shape: usize) -> Vec<String> {
+    let t = template(shape);
+    let mut out = Vec::new();
+    let mut rest = &t[..];
+    while let Some(i) = rest.find("@@") {
+        let r2 = &rest[i + 2..];
+        let j = r2.find("@@").unwrap();
+        out.push(r2[..j].to_string());
+        rest = &r2[j + 2..];
+    }
+    out
+}
+
+#[derive(Clone, Debug)]
+struct CaseSpec {
+    shape: usize,
+    style: usize,  // 0 = `///`, 1 = `/** */`
+    layout: usize, // 0 = fragment alone, 1 = between marker lines
+    /// (slot index, fragment index)
+    placed: Vec<(usize, usize)>,
+}
+
+fn doc_lines_for(slot_idx: usize, slot: &str, spec: &CaseSpec) -> Vec<String> {
+    let frags: Vec<usize> = spec
+        .placed
+        .iter()
+        .filter(|(s, _)| *s == slot_idx)
+        .map(|(_, f)| *f)
+        .collect();
+    if frags.is_empty() {
+        return vec![format!("plain words about {slot} number {slot_idx}")];
+    }
+    let mut lines = Vec::new();
+    if spec.layout == 1 {
+        lines.push(format!("before{slot_idx}"));
+    }
+    for f in frags {
+        for l in FRAGMENTS[f].lines {
+            lines.push(l.replace('~', &slot_idx.to_string()));
+        }
+    }
+    if spec.layout == 1 {
+        lines.push(format!("after{slot_idx}"));
+    }
+    lines
+}
+
+fn build_wit(spec: &CaseSpec) -> String {
+    let t = template(spec.shape);
+    let names = slots(spec.shape);
+    let mut out = String::new();
+    let mut slot_idx = 0usize;
+    for line in t.lines() {
+        let trimmed = line.trim();
+        if trimmed.starts_with("@@") && trimmed.ends_with("@@") {
+            let indent = &line[..line.len() - line.trim_start().len()];
+            let lines = doc_lines_for(slot_idx, &names[slot_idx], spec);
+            if spec.style == 0 {
+                for l in &lines {
+                    if l.is_empty() {
+                        out += &format!("{indent}///\n");
+                    } else {
+                        out += &format!("{indent}/// {l}\n");
+                    }
+                }
+            } else {
+                out += &format!("{indent}/**\n");
+                for l in &lines {
+                    out += &format!("{indent}{l}\n");
+                }
+                out += &format!("{indent}*/\n");
+            }
+            slot_idx += 1;
+        } else {
+            out += line;
+            out.push('\n');
+        }
+    }
+    out
+}
+
+// ---------------------------------------------------------------------------------------------
+// Reference: which documentation comments does the world have?
+// ---------------------------------------------------------------------------------------------
+
+#[derive(Debug, Clone)]
+struct DocUse {
+    /// structural position, independent of the template's slot names
+    position: String,
+    text: String,
+}
+
+fn collect_docs(resolve: &Resolve, world: WorldId) -> Vec<DocUse> {
+    let mut out = Vec::new();
+    let mut push = |position: String, d: &Docs| {
+        if let Some(c) = &d.contents {
+            if !c.trim().is_empty() {
+                out.push(DocUse {
+                    position,
+                    text: c.clone(),
+                });
+            }
+        }
+    };
+    let w = &resolve.worlds[world];
+    push("world".into(), &w.docs);
+    let type_docs = |push: &mut dyn FnMut(String, &Docs), id, ctx: &str| {
+        let td = &resolve.types[id];
+        let kind = match &td.kind {
+            TypeDefKind::Record(_) => "record",
+            TypeDefKind::Variant(_) => "variant",
+            TypeDefKind::Enum(_) => "enum",
+            TypeDefKind::Flags(_) => "flags",
+            TypeDefKind::Resource => "resource",
+            TypeDefKind::Option(_) => "option-type",
+            TypeDefKind::Result(_) => "result-type",
+            TypeDefKind::Tuple(_) => "tuple-type",
+            TypeDefKind::List(_) => "list-type",
+            TypeDefKind::Type(_) => "alias",
+            _ => "other-type",
+        };
+        push(format!("{ctx}:{kind}"), &td.docs);
+        match &td.kind {
+            TypeDefKind::Record(r) => {
+                for f in &r.fields {
+                    push(format!("{ctx}:record-field"), &f.docs);
+                }
+            }
+            TypeDefKind::Variant(v) => {
+                for c in &v.cases {
+                    push(format!("{ctx}:variant-case"), &c.docs);
+                }
+            }
+            TypeDefKind::Enum(e) => {
+                for c in &e.cases {
+                    push(format!("{ctx}:enum-case"), &c.docs);
+                }
+            }
+            TypeDefKind::Flags(f) => {
+                for c in &f.flags {
+                    push(format!("{ctx}:flag"), &c.docs);
+                }
+            }
+            _ => {}
+        }
+    };
+    for (dir, items) in [("import", &w.imports), ("export", &w.exports)] {
+        for (_key, item) in items.iter() {
+            match item {
+                WorldItem::Interface { id, .. } => {
+                    let iface = &resolve.interfaces[*id];
+                    push(format!("{dir}:interface"), &iface.docs);
+                    for (_, ty) in iface.types.iter() {
+                        type_docs(&mut push, *ty, &format!("{dir}:interface"));
+                    }
+                    for (_, f) in iface.functions.iter() {
+                        push(format!("{dir}:interface:func"), &f.docs);
+                    }
+                }
+                WorldItem::Function(f) => push(format!("{dir}:world-func"), &f.docs),
+                WorldItem::Type { id, .. } => type_docs(&mut push, *id, &format!("{dir}:world")),
+            }
+        }
+    }
+    out
+}
+
+// ---------------------------------------------------------------------------------------------
+// HTML scanning
+// ---------------------------------------------------------------------------------------------
+
+#[derive(Debug)]
+enum Tok {
+    Open { name: String, attrs: Vec<(String, String)> },
+    Close { name: String },
+    Text(String),
+}
+
+fn unescape(s: &str) -> String {
+    let mut out = String::new();
+    let mut rest = s;
+    while let Some(i) = rest.find('&') {
+        out.push_str(&rest[..i]);
+        let tail = &rest[i..];
+        let end = tail.find(';').filter(|e| *e <= 10);
+        let mut done = false;
+        if let Some(e) = end {
+            let ent = &tail[1..e];
+            let rep = match ent {
+                "amp" => Some('&'),
+                "lt" => Some('<'),
+                "gt" => Some('>'),
+                "quot" => Some('"'),
+                "apos" => Some('\''),
+                _ => {
+                    if let Some(h) = ent.strip_prefix("#x").or_else(|| ent.strip_prefix("#X")) {
+                        u32::from_str_radix(h, 16).ok().and_then(char::from_u32)
+                    } else if let Some(d) = ent.strip_prefix('#') {
+                        d.parse::<u32>().ok().and_then(char::from_u32)
+                    } else {
+                        None
+                    }
+                }
+            };
+            if let Some(c) = rep {
+                out.push(c);
+                rest = &tail[e + 1..];
+                done = true;
+            }
+        }
+        if !done {
+            out.push('&');
+            rest = &tail[1..];
+        }
+    }
+    out.push_str(rest);
+    out
+}
+
+fn scan_html(s: &str) -> Vec<Tok> {
+    let b = s.as_bytes();
+    let mut toks = Vec::new();
+    let mut i = 0;
+    let mut text_start = 0;
+    let flush = |toks: &mut Vec<Tok>, from: usize, to: usize| {
+        if to > from {
+            toks.push(Tok::Text(unescape(&s[from..to])));
+        }
+    };
+    while i < b.len() {
+        if b[i] != b'<' {
+            i += 1;
+            continue;
+        }
+        if s[i..].starts_with("<!--") {
+            flush(&mut toks, text_start, i);
+            i = s[i..].find("-->").map(|e| i + e + 3).unwrap_or(b.len());
+            text_start = i;
+            continue;
+        }
+        let closing = i + 1 < b.len() && b[i + 1] == b'/';
+        let ns = if closing { i + 2 } else { i + 1 };
+        if ns >= b.len() || !b[ns].is_ascii_alphabetic() {
+            // `<` that does not start a tag is text (HTML tokenizer rule)
+            i += 1;
+            continue;
+        }
+        flush(&mut toks, text_start, i);
+        let mut j = ns;
+        while j < b.len() && (b[j].is_ascii_alphanumeric() || b[j] == b'-') {
+            j += 1;
+        }
+        let name = s[ns..j].to_ascii_lowercase();
+        let mut attrs = Vec::new();
+        // attributes
+        loop {
+            while j < b.len() && (b[j].is_ascii_whitespace() || b[j] == b'/') {
+                j += 1;
+            }
+            if j >= b.len() || b[j] == b'>' {
+                break;
+            }
+            let as_ = j;
+            while j < b.len() && !b[j].is_ascii_whitespace() && b[j] != b'=' && b[j] != b'>' && b[j] != b'/' {
+                j += 1;
+            }
+            let an = s[as_..j].to_ascii_lowercase();
+            let mut val = String::new();
+            while j < b.len() && b[j].is_ascii_whitespace() {
+                j += 1;
+            }
+            if j < b.len() && b[j] == b'=' {
+                j += 1;
+                while j < b.len() && b[j].is_ascii_whitespace() {
+                    j += 1;
+                }
+                if j < b.len() && (b[j] == b'"' || b[j] == b'\'') {
+                    let q = b[j];
+                    let vs = j + 1;
+                    j = vs;
+                    while j < b.len() && b[j] != q {
+                        j += 1;
+                    }
+                    val = unescape(&s[vs..j.min(b.len())]);
+                    j = (j + 1).min(b.len());
+                } else {
+                    let vs = j;
+                    while j < b.len() && !b[j].is_ascii_whitespace() && b[j] != b'>' {
+                        j += 1;
+                    }
+                    val = unescape(&s[vs..j]);
+                }
+            }
+            if an.is_empty() {
+                j += 1;
+            } else {
+                attrs.push((an, val));
+            }
+        }
+        if j < b.len() {
+            j += 1; // '>'
+        }
+        if closing {
+            toks.push(Tok::Close { name });
+        } else {
+            toks.push(Tok::Open { name, attrs });
+        }
+        i = j;
+        text_start = j;
+    }
+    flush(&mut toks, text_start, b.len());
+    toks
+}
+
+fn collapse_ws(s: &str) -> String {
+    s.split_whitespace().collect::<Vec<_>>().join(" ")
+}
+
+struct HtmlFacts {
+    nested: Vec<String>,
+    dangling: Vec<String>,
+    links: usize,
+    anchors: usize,
+    text: String,
+}
+
+fn html_facts(html: &str) -> HtmlFacts {
+    let toks = scan_html(html);
+    let mut open_a: Vec<String> = Vec::new();
+    let mut nested = Vec::new();
+    let mut ids = BTreeSet::new();
+    let mut hrefs = Vec::new();
+    let mut text = String::new();
+    let mut links = 0;
+    for t in &toks {
+        match t {
+            Tok::Open { name, attrs } => {
+                for (k, v) in attrs {
+                    if k == "id" || (k == "name" && name == "a") {
+                        ids.insert(v.clone());
+                    }
+                }
+                if name == "a" {
+                    let desc = attrs
+                        .iter()
+                        .map(|(k, v)| format!("{k}={v}"))
+                        .collect::<Vec<_>>()
+                        .join(" ");
+                    if let Some(outer) = open_a.last() {
+                        nested.push(format!("<a {desc}> inside <a {outer}>"));
+                    }
+                    if let Some((_, h)) = attrs.iter().find(|(k, _)| k == "href") {
+                        links += 1;
+                        if let Some(frag) = h.strip_prefix('#') {
+                            hrefs.push(frag.to_string());
+                        }
+                    }
+                    open_a.push(desc);
+                }
+                text.push(' ');
+            }
+            Tok::Close { name } => {
+                if name == "a" {
+                    open_a.pop();
+                }
+                // inline closers do not separate words; block closers do
+                if !matches!(name.as_str(), "a" | "code" | "b" | "em" | "strong") {
+                    text.push(' ');
+                }
+            }
+            Tok::Text(t) => text.push_str(t),
+        }
+    }
+    let dangling = hrefs
+        .iter()
+        .filter(|h| !ids.contains(*h))
+        .cloned()
+        .collect::<BTreeSet<_>>()
+        .into_iter()
+        .collect();
+    HtmlFacts {
+        nested,
+        dangling,
+        links,
+        anchors: ids.len(),
+        text: collapse_ws(&text),
+    }
+}
+
+// ---------------------------------------------------------------------------------------------
+// The check for one world
+// ---------------------------------------------------------------------------------------------
+
+#[derive(Default)]
+struct Findings {
+    /// (key, what)
+    items: Vec<(String, String)>,
+    docs_checked: usize,
+    links: usize,
+    anchors: usize,
+    generator: String,
+}
+
+/// 3a: the lines of `doc` appear in `md` as consecutive lines, the first one possibly behind `<p>`.
+fn md_occurrences(md_lines: &[&str], doc: &str) -> usize {
+    let dl: Vec<&str> = doc.lines().map(|l| l.trim()).collect();
+    // leading/trailing blank lines are "surrounding whitespace"
+    let first = dl.iter().position(|l| !l.is_empty());
+    let last = dl.iter().rposition(|l| !l.is_empty());
+    let (Some(first), Some(last)) = (first, last) else {
+        return usize::MAX;
+    };
+    let dl = &dl[first..=last];
+    let mut n = 0;
+    for i in 0..md_lines.len() {
+        if i + dl.len() > md_lines.len() {
+            break;
+        }
+        let l0 = md_lines[i].trim();
+        let l0 = l0.strip_prefix("<p>").map(|s| s.trim_start()).filter(|s| *s == dl[0]).unwrap_or(l0);
+        if l0 != dl[0] {
+            continue;
+        }
+        if (1..dl.len()).all(|k| md_lines[i + k].trim() == dl[k]) {
+            n += 1;
+        }
+    }
+    n
+}
+
+/// acceptable HTML text renderings of one doc line (white space collapsed)
+fn html_alternatives(line: &str) -> Vec<String> {
+    let l = collapse_ws(line);
+    // find the fragment line this came from (by pattern with the slot number abstracted)
+    for f in FRAGMENTS {
+        for (k, fl) in f.lines.iter().filter(|l| !l.is_empty()).enumerate() {
+            // match `fl` with '~' standing for a decimal number
+            if let Some(num) = match_template(fl.trim(), &l) {
+                return f.html_texts[k]
+                    .iter()
+                    .map(|t| collapse_ws(&t.replace('~', &num)))
+                    .collect();
+            }
+        }
+    }
+    vec![l]
+}
+
+/// If `s` equals `tmpl` with every `~` replaced by one and the same decimal number, return it.
+fn match_template(tmpl: &str, s: &str) -> Option<String> {
+    if !tmpl.contains('~') {
+        return (tmpl == s).then(String::new);
+    }
+    let first = tmpl.find('~').unwrap();
+    if !s.starts_with(&tmpl[..first]) {
+        return None;
+    }
+    let digits: String = s[first..].chars().take_while(|c| c.is_ascii_digit()).collect();
+    if digits.is_empty() {
+        return None;
+    }
+    (tmpl.replace('~', &digits) == s).then_some(digits)
+}
+
+fn check_world(wit: &str, findings: &mut Findings) {
+    let input = Input::Texts(vec![("c29.wit".into(), wit.to_string())]);
+    let (mut resolve, world) = match parse(&input, Some("w")) {
+        Ok(x) => x,
+        Err(e) => vcommon::machinery(&format!("C29 template is not valid WIT: {e}\n{wit}")),
+    };
+    let docs = collect_docs(&resolve, world);
+    findings.docs_checked += docs.len();
+
+    let mut outputs: Vec<(&str, String)> = Vec::new(); // (kind, html)
+    let mut md_raw = None;
+    for html_in_md in [false, true] {
+        let g = generate_resolved(&mut resolve, world, &Backend::Markdown { html_in_md });
+        match g {
+            Gen::Ok(files) => {
+                let get = |n: &str| files.get(n).map(|b| String::from_utf8_lossy(b).into_owned());
+                if html_in_md {
+                    match get("w.md") {
+                        Some(h) => outputs.push(("html-in-md", h)),
+                        None => findings.items.push(("output:html-in-md:w.md-missing".into(), "w.md not generated".into())),
+                    }
+                } else {
+                    md_raw = get("w.md");
+                    match get("w.html") {
+                        Some(h) => outputs.push(("html", h)),
+                        None => findings.items.push(("output:w.html-missing".into(), "w.html not generated".into())),
+                    }
+                }
+            }
+            other => {
+                findings.generator = other.class().to_string();
+                // a panic / Err is C16's business; nothing to scan
+                return;
+            }
+        }
+    }
+    findings.generator = "ok".into();
+
+    // 3a on the markdown file
+    let mut missing_positions: BTreeSet<String> = BTreeSet::new();
+    if let Some(md) = &md_raw {
+        let md_lines: Vec<&str> = md.lines().collect();
+        let mut mult: BTreeMap<&str, (usize, &str)> = BTreeMap::new();
+        for d in docs.iter().filter(|d| d.position != "export:interface") {
+            let e = mult.entry(d.text.as_str()).or_insert((0, d.position.as_str()));
+            e.0 += 1;
+        }
+        // The docs of an exported interface: one more occurrence than the other comments with
+        // the same text account for -- unless the same interface is also imported, in which case
+        // the imported copy carries the very same comment. One key for this position, whatever
+        // the text: the generator either writes this comment or it does not.
+        let import_iface_texts: BTreeSet<&str> = docs
+            .iter()
+            .filter(|d| d.position == "import:interface")
+            .map(|d| d.text.as_str())
+            .collect();
+        for d in docs.iter().filter(|d| d.position == "export:interface") {
+            if import_iface_texts.contains(d.text.as_str()) {
+                continue;
+            }
+            let others = mult.get(d.text.as_str()).map(|x| x.0).unwrap_or(0);
+            let got = md_occurrences(&md_lines, &d.text);
+            if got < others + 1 {
+                findings.items.push((
+                    "doc-missing:export:interface".to_string(),
+                    format!("documentation comment of an exported interface {:?} does not appear in w.md (found {got} occurrence(s), {others} of them owed to other comments with the same text)", d.text),
+                ));
+                missing_positions.insert(d.position.clone());
+            }
+        }
+        for (text, (want, position)) in mult {
+            let got = md_occurrences(&md_lines, text);
+            if got == 0 {
+                // "missing": not a single line of the comment is a line of the output
+                let any_line = text.lines().map(|l| l.trim()).filter(|l| !l.is_empty()).any(|l| {
+                    md_lines.iter().any(|m| {
+                        let m = m.trim();
+                        m == l || m.strip_prefix("<p>").map(|x| x.trim_start()) == Some(l)
+                    })
+                });
+                if !any_line {
+                    findings.items.push((
+                        format!("doc-missing:{position}"),
+                        format!("documentation comment at {position} {:?} is not in the output at all (w.md)", text),
+                    ));
+                    missing_positions.insert(position.to_string());
+                } else {
+                    findings.items.push((
+                        format!("doc-text:md:{position}:{}", classify_doc(text)),
+                        format!("documentation comment at {position} {:?} does not appear (lines unchanged, in order) in w.md", text),
+                    ));
+                }
+            } else if got < want {
+                findings.items.push((
+                    format!("doc-text:md:{position}:{}:multiplicity", classify_doc(text)),
+                    format!("documentation comment {:?} is used {want} times but appears {got} times in w.md", text),
+                ));
+            }
+        }
+    } else {
+        findings.items.push(("output:w.md-missing".into(), "w.md not generated".into()));
+    }
+
+    for (kind, html) in &outputs {
+        let facts = html_facts(html);
+        findings.links += facts.links;
+        findings.anchors += facts.anchors;
+        for n in &facts.nested {
+            findings.items.push((
+                format!("nested-link:{kind}:{}", abstract_digits(n)),
+                format!("{kind}: {n}"),
+            ));
+        }
+        for d in &facts.dangling {
+            findings.items.push((
+                format!("dangling-href:{kind}:#{d}"),
+                format!("{kind}: href=\"#{d}\" has no id=\"{d}\" in the document"),
+            ));
+        }
+        // 3b
+        for d in &docs {
+            if missing_positions.contains(&d.position) {
+                continue; // already reported once as doc-missing
+            }
+            let mut pos = 0usize;
+            let mut ok = true;
+            let mut missing = String::new();
+            for line in d.text.lines().map(|l| l.trim()).filter(|l| !l.is_empty()) {
+                let alts = html_alternatives(line);
+                let found = alts
+                    .iter()
+                    .filter_map(|a| {
+                        if a.is_empty() {
+                            Some(pos)
+                        } else {
+                            facts.text[pos..].find(a.as_str()).map(|i| pos + i + a.len())
+                        }
+                    })
+                    .min();
+                match found {
+                    Some(p) => pos = p,
+                    None => {
+                        // order within the document is not demanded for repeated texts: retry from the start
+                        if alts.iter().any(|a| facts.text.contains(a.as_str())) {
+                            continue;
+                        }
+                        ok = false;
+                        missing = line.to_string();
+                        break;
+                    }
+                }
+            }
+            if !ok {
+                findings.items.push((
+                    format!("doc-text:{kind}:{}:{}", d.position, classify_doc(&d.text)),
+                    format!("{kind}: text of doc line {missing:?} (comment at {}) not found in the document's text content", d.position),
+                ));
+            }
+        }
+    }
+    if outputs.len() == 2 && outputs[0].1 != outputs[1].1 {
+        // not demanded by the statement; both were scanned separately above
+    }
+}
+
+fn abstract_digits(s: &str) -> String {
+    let mut out = String::new();
+    for c in s.chars() {
+        if c.is_ascii_digit() {
+            if !out.ends_with('N') {
+                out.push('N');
+            }
+        } else {
+            out.push(c);
+        }
+    }
+    out
+}
+
+/// fragment id(s) of a doc text (for stable keys), or "plain"
+fn classify_doc(text: &str) -> String {
+    let mut ids = Vec::new();
+    for line in text.lines().map(|l| collapse_ws(l)).filter(|l| !l.is_empty()) {
+        for f in FRAGMENTS {
+            if f.lines.iter().filter(|l| !l.is_empty()).next().map(|fl| match_template(&collapse_ws(fl), &line).is_some()) == Some(true)
+                && !ids.contains(&f.id)
+            {
+                ids.push(f.id);
+            }
+        }
+    }
+    if ids.is_empty() {
+        "plain".into()
+    } else {
+        ids.join("+")
+    }
+}
+
+fn spec_to_json(s: &CaseSpec) -> Value {
+    json!({"shape": s.shape, "style": s.style, "layout": s.layout, "placed": s.placed})
+}
+
+fn describe(s: &CaseSpec) -> String {
+    let names = slots(s.shape);
+    let placed = s
+        .placed
+        .iter()
+        .map(|(sl, f)| format!("{}@{}", FRAGMENTS[*f].id, names[*sl]))
+        .collect::<Vec<_>>()
+        .join(" + ");
+    format!(
+        "shape{} {} {} {}",
+        s.shape,
+        if s.style == 0 { "///" } else { "/** */" },
+        if s.layout == 0 { "alone" } else { "between-markers" },
+        placed
+    )
+}
+
+fn main() {
+    let mut run = vcommon::Run::from_args("C29", "exploration");
+    vcommon::install_quiet_panic_hook();
+    tune_malloc();
+
+    if let Some(d) = run.replay_detail() {
+        let wit = d["wit"].as_str().unwrap_or_else(|| vcommon::machinery("replay: no wit"));
+        println!("{wit}");
+        let mut f = Findings::default();
+        check_world(wit, &mut f);
+        println!("generator: {}", f.generator);
+        for (k, w) in &f.items {
+            println!("FAILS {k}: {w}");
+        }
+        let want = d["key"].as_str().unwrap_or("");
+        let still = f.items.iter().any(|(k, _)| want.is_empty() || k == want);
+        println!("replay: {}", if still { "STILL FAILS" } else { "does not fail" });
+        std::process::exit(if still { 1 } else { 0 });
+    }
+
+    // vacuity guard: every slot of the template must reach the generator as a documentation comment
+    for shape in 0..2usize {
+        for style in 0..2usize {
+            let spec = CaseSpec { shape, style, layout: 0, placed: vec![] };
+            let wit = build_wit(&spec);
+            let input = Input::Texts(vec![("c29.wit".into(), wit.clone())]);
+            let (resolve, world) = parse(&input, Some("w"))
+                .unwrap_or_else(|e| vcommon::machinery(&format!("C29 template is not valid WIT: {e}\n{wit}")));
+            let texts: BTreeSet<String> = collect_docs(&resolve, world).into_iter().map(|d| d.text.trim().to_string()).collect();
+            let want = slots(shape).len();
+            if texts.len() != want {
+                vcommon::machinery(&format!(
+                    "C29 template shape {shape} style {style}: {want} slots but {} distinct documentation comments reach the generator",
+                    texts.len()
+                ));
+            }
+        }
+    }
+
+    // enumerate
+    let thorough = run.thorough();
+    let mut specs: Vec<CaseSpec> = Vec::new();
+    for shape in 0..2usize {
+        let nslots = slots(shape).len();
+        for style in 0..2usize {
+            for layout in 0..2usize {
+                let frag_ok = |f: usize| style == 0 || FRAGMENTS[f].block_ok;
+                // no fragment at all (baseline: links of the plain template)
+                specs.push(CaseSpec { shape, style, layout, placed: vec![] });
+                for s in 0..nslots {
+                    for f in (0..FRAGMENTS.len()).filter(|f| frag_ok(*f)) {
+                        specs.push(CaseSpec { shape, style, layout, placed: vec![(s, f)] });
+                    }
+                }
+                if thorough && style == 0 && shape == 0 {
+                    // pairs (`///` style, world shape 0 only): two fragments in one slot (both orders) and two fragments in two slots
+                    for s1 in 0..nslots {
+                        for f1 in (0..FRAGMENTS.len()).filter(|f| frag_ok(*f)) {
+                            for s2 in s1..nslots {
+                                for f2 in (0..FRAGMENTS.len()).filter(|f| frag_ok(*f)) {
+                                    if s1 == s2 && f1 == f2 {
+                                        continue;
+                                    }
+                                    specs.push(CaseSpec { shape, style, layout, placed: vec![(s1, f1), (s2, f2)] });
+                                }
+                            }
+                        }
+                    }
+                }
+            }
+        }
+    }
+    rotate(&mut specs, run.seed);
+    let n = specs.len();
+    let workers = vcommon::ncpu().min(16);
+    let chunk = 64usize;
+    let nchunks = (n + chunk - 1) / chunk;
+    let results = vcommon::par_map(nchunks, workers, |c| {
+        let mut items: Vec<Value> = Vec::new();
+        let mut docs = 0usize;
+        let mut links = 0usize;
+        let mut anchors = 0usize;
+        let mut gen: BTreeMap<String, usize> = BTreeMap::new();
+        let mut seen = BTreeSet::new();
+        for i in c * chunk..((c + 1) * chunk).min(n) {
+            let wit = build_wit(&specs[i]);
+            let mut f = Findings::default();
+            check_world(&wit, &mut f);
+            docs += f.docs_checked;
+            links += f.links;
+            anchors += f.anchors;
+            *gen.entry(f.generator.clone()).or_insert(0) += 1;
+            for (k, w) in f.items {
+                if seen.insert(k.clone()) {
+                    items.push(json!({"key": k, "what": w, "spec": i}));
+                }
+            }
+        }
+        json!({"items": items, "docs": docs, "links": links, "anchors": anchors, "gen": gen})
+    });
+
+    let mut docs = 0u64;
+    let mut links = 0u64;
+    let mut anchors = 0u64;
+    let mut gen: BTreeMap<String, u64> = BTreeMap::new();
+    for r in &results {
+        docs += r["docs"].as_u64().unwrap_or(0);
+        links += r["links"].as_u64().unwrap_or(0);
+        anchors += r["anchors"].as_u64().unwrap_or(0);
+        for (k, v) in r["gen"].as_object().unwrap() {
+            *gen.entry(k.clone()).or_insert(0) += v.as_u64().unwrap_or(0);
+        }
+        for it in r["items"].as_array().unwrap() {
+            let i = it["spec"].as_u64().unwrap() as usize;
+            let key = it["key"].as_str().unwrap();
+            let wit = build_wit(&specs[i]);
+            run.violation(
+                key,
+                &format!("{} [{}]", it["what"].as_str().unwrap_or(""), describe(&specs[i])),
+                json!({"wit": wit, "key": key, "spec": spec_to_json(&specs[i]), "case": describe(&specs[i])}),
+            );
+        }
+    }
+    if gen.get("ok").copied().unwrap_or(0) == 0 {
+        vcommon::machinery("the markdown generator produced no output for any world");
+    }
+    for (k, v) in &gen {
+        if k != "ok" {
+            println!("NOTE (C16, not a C29 verdict): generator outcome {k} on {v} worlds");
+        }
+    }
+    // distinct (slot, fragment, style, layout, shape) placements whose world was generated and scanned
+    let mut distinct = BTreeSet::new();
+    for s in &specs {
+        for (sl, f) in &s.placed {
+            distinct.insert((s.shape, s.style, s.layout, *sl, *f));
+        }
+    }
+    let mut samples = Vec::new();
+    for i in [0usize, 1, n / 3, n / 2, n - 1] {
+        if i < n {
+            samples.push(json!({"case": describe(&specs[i]), "wit_head": build_wit(&specs[i]).lines().take(12).collect::<Vec<_>>().join("\n")}));
+        }
+    }
+    let coverage = json!({
+        "evaluations": n,
+        "distinct_nontrivial": distinct.len(),
+        "rule": "distinct (world shape, comment style, layout, slot, fragment) placements whose world was generated in both output modes and scanned; worlds without a fragment are not counted",
+        "exhaustive": true,
+        "bounds": {
+            "fragments": FRAGMENTS.iter().map(|f| json!({"id": f.id, "lines": f.lines})).collect::<Vec<_>>(),
+            "slots": {"shape0": slots(0), "shape1": slots(1)},
+            "styles": ["/// lines", "/** block */"],
+            "layouts": ["fragment alone", "fragment between two marker lines"],
+            "fragments_per_world": if thorough { "0, 1 (both styles, both shapes) and, for the `///` style on world shape 0, every pair (same slot in both orders, or two different slots)" } else { "0 and 1 (each fragment x each slot)" },
+            "output_modes": ["w.md + w.html", "--html-in-md"],
+        },
+        "doc_comments_checked": docs,
+        "links_seen": links,
+        "anchors_seen": anchors,
+        "distinct_outcomes": gen,
+        "samples": samples,
+    });
+    let assumptions = vec![
+        "Docs are markdown: the generator copies each doc line (trimmed) into the markdown source and renders the whole source with pulldown-cmark. 'Text unchanged' is therefore judged (a) exactly, line by line, on the markdown file (`w.md`, default mode), where member docs may follow the `<p>` the generator writes; (b) on the HTML text content (tags stripped, entities decoded, white space collapsed) with a per-fragment table that accepts both the markdown-rendered text and the raw text (member docs sit in a raw HTML block). pulldown-cmark is not in [workspace.dependencies], so no independent rendering is computed; fragments outside the table are plain words whose rendering is the identity.".to_string(),
+        "'Surrounding whitespace' is read per line (the generator trims each line) and includes leading/trailing blank lines of a comment.".to_string(),
+        "The documentation comments of a world are those wit-parser attaches to the world, its imported/exported interfaces, their types (and fields/cases/flags), functions, and world-level functions/types. Docs of an *exported* interface are included, since the statement says 'every documentation comment'; they get their own key (`...:export:interface:...`).".to_string(),
+        "An `<a id=..>` anchor opened inside an open `<a>` counts as nesting (invalid HTML either way).".to_string(),
+        "Links written by the doc author (`[txt](u)`) use a non-fragment URL, so a dangling `#` href can only come from the generator.".to_string(),
+    ];
+    run.finish(coverage, assumptions);
+}
